@@ -387,7 +387,8 @@ PROPS = {
         title='The C API behaves exactly like the Rust API on the same values',
         verus=[('u_capi', [r'^haystack_value_', r'^haystack_filter_'])],
         kani=[],
-        witness='enum:capi-list',
+        witness=['enum:capi-list', 'enum:random-capi'],
+        enums_thorough=['enum:random-capi 100000'],
         design_ref='DESIGN.md section 4, C17',
         level_text=('Proof (Verus, under extraction rule R10 which turns the pointer protocol into types) for 80 of the extern "C" functions. '
                     'Constructors (marker, na, remove, bool, number, coord, list): the handle holds exactly the value the Rust constructor makes; the string constructors (str, ref, ref with dis, uri, symbol) hold the value built from the text of the C string and return no handle for null or invalid UTF-8 (CStr::from_ptr is proved never to be applied to null). '
